@@ -42,22 +42,24 @@ type pool struct {
 	lin     []scale.Linear
 	logs    []*scale.Log
 	// derived, shared read-only result objects (built before the snapshot)
-	loess  func(float64) float64
-	poly   fit.PolynomialRegressionResult
-	scc    *graphalg.SCCGraph
-	sub    graph.Subgraph
-	bi     graph.BiGraph
-	idom   []int
-	dom    *graphalg.DomTree
-	simpl  graph.Weighted
-	huge   []float64      // optional: a slice beyond any plausible 'switch algorithm for large n' threshold (nil in most runs)
-	big    graph.IntGraph // optional: a graph whose node ids cross the mark set's growth boundary (nil in most runs)
-	invT   func(float64) float64
-	crashD *crashDist
-	invS   func(float64) float64
-	track  []tracked
-	knobEL int
-	knobTL int
+	loess   func(float64) float64
+	poly    fit.PolynomialRegressionResult
+	scc     *graphalg.SCCGraph
+	sub     graph.Subgraph
+	bi      graph.BiGraph
+	idom    []int
+	dom     *graphalg.DomTree
+	simpl   graph.Weighted
+	sortedW stats.Sample   // a weighted sample of 64-130 points that is ascending with Sorted set
+	xwts    []float64      // weights of extreme but legal magnitude, parallel to fl[2]
+	huge    []float64      // optional: a slice beyond any plausible 'switch algorithm for large n' threshold (nil in most runs)
+	big     graph.IntGraph // optional: a graph whose node ids cross the mark set's growth boundary (nil in most runs)
+	invT    func(float64) float64
+	crashD  *crashDist
+	invS    func(float64) float64
+	track   []tracked
+	knobEL  int
+	knobTL  int
 }
 
 func mkF(n int) []float64 {
@@ -189,6 +191,30 @@ func buildPool(g simkit.G) *pool {
 		p.pos = append(p.pos, xs)
 		p.trackF(fmt.Sprintf("positive slice pos[%d]", i), xs)
 	}
+	{
+		// a larger, already-sorted weighted sample (the Sorted fast paths; sizes around 64 and 128)
+		n := []int{64, 65, 100, 128, 130}[g.Intn(5)]
+		xs, ws := mkF(n), mkF(n)
+		v := -5.0
+		for i := range xs {
+			if !g.Chance(1, 4) {
+				v += g.Unit()
+			}
+			xs[i] = v
+			ws[i] = float64(g.Range(0, 9)) / 4
+		}
+		ws[n/2] = 1.25
+		p.sortedW = stats.Sample{Xs: xs, Weights: ws, Sorted: true}
+		p.trackF("sorted weighted sample Xs", xs)
+		p.trackF("sorted weighted sample Weights", ws)
+		// weights of extreme magnitude for the fits
+		p.xwts = mkF(lens[2])
+		sc := []float64{1e120, 1e-120, 1e200, 1e-200}[g.Intn(4)]
+		for i := range p.xwts {
+			p.xwts[i] = sc * float64(g.Range(1, 9))
+		}
+		p.trackF("extreme-magnitude weights", p.xwts)
+	}
 	if g.Chance(1, 16) {
 		n := 16400 + g.Intn(4000)
 		p.huge = mkF(n)
@@ -203,7 +229,7 @@ func buildPool(g simkit.G) *pool {
 		p.samples = append(p.samples, stats.Sample{Xs: p.fl[i]})
 	}
 	p.samples = append(p.samples, stats.Sample{Xs: p.fl[0], Weights: p.wts[0]}, stats.Sample{Xs: p.fl[2], Weights: p.wts[2]},
-		stats.Sample{Xs: p.pos[0]}, stats.Sample{Xs: p.pos[1]})
+		stats.Sample{Xs: p.pos[0]}, stats.Sample{Xs: p.pos[1]}, p.sortedW, stats.Sample{Xs: p.sortedW.Xs, Sorted: true})
 	// ---- tie vectors for UDist ----
 	for i := 0; i < 3; i++ {
 		n1, n2 := g.Range(1, 7), g.Range(1, 7)
